@@ -6,7 +6,7 @@ concretely where the table is finite (suffixes, escapes, prefixes, codec boundar
 single-bit code points, normalisation pipeline), symbolically where it is not (the
 magnitude of an integer constant is an opaque 64-bit value; the comparisons the ladder
 performs partition it)."""
-from ..interp import Obj, Sym, View, _Ref, VarPlace
+from ..interp import Obj, Sym, Term, View, _Ref, VarPlace
 from ..build import AnalysisBroken
 from .. import lib_c11 as L
 import re as _re
@@ -612,7 +612,10 @@ def r116(P, u, rep):
     chars = [('none', "'a'", INT_T, 97), ('none-high-bit', "'\\xff'", INT_T, -1), ('none-octal-200', "'\\200'", INT_T, -128), ('none-escape', "'\\n'", INT_T, 10),
              ('u', "u'\u00e9'", USHORT, 0xE9), ('u-bmp', "u'\u3042'", USHORT, 0x3042), ('u-escape', "u'\\xffff'", USHORT, 0xFFFF),
              ('U', "U'\U0001F363'", UINT_T, sushi), ('U-escape', "U'\\xff'", UINT_T, 255),
-             ('L', "L'\U0001F363'", INT_T, sushi), ('L-escape', "L'\\xff'", INT_T, 255), ('L-ascii', "L'a'", INT_T, 97)]
+             ('L', "L'\U0001F363'", INT_T, sushi), ('L-escape', "L'\\xff'", INT_T, 255), ('L-ascii', "L'a'", INT_T, 97),
+             # the value of a constant is a value of its type (C11 6.4.4.4p9-p11): escapes with the top bit of the type set
+             ('u-escape-high-bit', "u'\\xfff0'", USHORT, 0xFFF0), ('U-escape-high-bit', "U'\\xfffffff0'", UINT_T, 0xFFFFFFF0),
+             ('L-escape-high-bit', "L'\\xfffffff0'", INT_T, -16), ('U-octal', "U'\\377'", UINT_T, 255), ('u-octal', "u'\\377'", USHORT, 255)]
     for name, src, ty, val in chars:
         lx = lex(P, u, src + '\n')
         ok, what = True, ''
@@ -624,6 +627,8 @@ def r116(P, u, rep):
             v = t.fields.get('val')
             if sig != ty or v != val or L.tok_text(t) != src.encode('utf-8'):
                 ok, what = False, 'a constant of type %s with value %r spelled %r' % (CTYNAME.get(sig, sig), v, L.tok_text(t))
+                if sig == ty and isinstance(v, int) and sig[2] and v < 0:
+                    what += ' (a negative value in a token of unsigned type: the constant folder compares and converts the 64-bit Token.val, so `%s == %d` folds to 0 while the generated code yields 1)' % (src, val)
         rep.ob('R11.6', '%s:%s:char-prefix-%s' % (TU, fn, name), ok,
                'the character constant %s becomes %s; C11 6.4.4.4 requires type %s, value %d' % (src, what, CTYNAME[ty], val), where=where)
     # prefixes that are not followed by a quote stay identifiers
@@ -812,9 +817,14 @@ def float_oracle(text):
     return FLOAT if sfx in ('f', 'F') else (LDOUBLE if sfx in ('l', 'L') else DOUBLE)
 
 
+_FRANK = {'float': 1, 'double': 2, 'long double': 3}
+_STRTO = {'strtof': 1, 'strtod': 2, 'strtold': 3}
+
+
 def _precision_chain(u, fn, expr, seen, problems, depth=0):
     """walk the definitions that feed `expr` inside function node fn; collect problems
-    ('narrow', type, line) / ('callee', name, line) / ('unknown', what, line)"""
+    ('narrow', type, line): a conversion to a narrower floating type / through an integer type
+    ('callee', name, line) / ('unknown', what, line)"""
     e = expr
     while True:
         if e.kind in ('ParenExpr', 'ConstantExpr') and e.inner:
@@ -822,10 +832,16 @@ def _precision_chain(u, fn, expr, seen, problems, depth=0):
             continue
         if e.kind in ('ImplicitCastExpr', 'CStyleCastExpr') and e.inner:
             ck = e.cast_kind
-            if ck in ('FloatingCast', 'IntegralToFloating', 'FloatingToIntegral', 'IntegralCast'):
-                src = e.inner[0].dtype or e.inner[0].type
-                if src != 'long double':
-                    problems.append(('narrow', src, e.line))
+            if ck in ('IntegralToFloating', 'FloatingToIntegral', 'IntegralCast'):
+                problems.append(('narrow', (e.dtype or e.type) if ck == 'FloatingToIntegral' else (e.inner[0].dtype or e.inner[0].type), e.line))
+                return
+            if ck == 'FloatingCast':
+                src, dst = e.inner[0].dtype or e.inner[0].type, e.dtype or e.type
+                if src not in _FRANK or dst not in _FRANK:
+                    problems.append(('unknown', 'conversion %s -> %s' % (src, dst), e.line))
+                    return
+                if _FRANK[dst] < _FRANK[src]:
+                    problems.append(('narrow', dst, e.line))
                     return
             e = e.inner[0]
             continue
@@ -837,8 +853,8 @@ def _precision_chain(u, fn, expr, seen, problems, depth=0):
         return
     if e.kind == 'CallExpr':
         c = e.callee()
-        if c == 'strtold':
-            seen.add('strtold')
+        if c in _STRTO:
+            seen.add(c)
             return
         problems.append(('callee', c or 'an indirect call', e.line))
         return
@@ -864,10 +880,6 @@ def _precision_chain(u, fn, expr, seen, problems, depth=0):
         if decl is None:
             problems.append(('unknown', 'variable %s is not a local of %s' % (e.ref_name, fn.name), e.line))
             return
-        t = decl.dtype or decl.type
-        if t != 'long double':
-            problems.append(('narrow', t, decl.line))
-            return
         if not defs:
             problems.append(('unknown', 'no definition of %s' % e.ref_name, decl.line))
         for d in defs:
@@ -876,10 +888,32 @@ def _precision_chain(u, fn, expr, seen, problems, depth=0):
     problems.append(('unknown', 'expression %s' % e.src()[:60], e.line))
 
 
+def fval_origin(fv):
+    """a Token.fval / Node.fval value of the interpreter -> (the strto* result symbol or None, [floating types it was converted through], None | what is wrong)"""
+    through = []
+    cur = fv
+    while isinstance(cur, Term) and cur.op.startswith('cast:') and len(cur.args) == 1:
+        t = cur.op[5:].replace('const ', '').strip()
+        if t not in _FRANK:
+            return None, through, 'converted through the non-floating type %s' % t
+        through.append(t)
+        cur = cur.args[0]
+    if isinstance(cur, Sym):
+        return cur, through, None
+    return None, through, 'the value %r is not the result of a conversion function' % (cur,)
+
+
+def fval_sig(fv):
+    """comparable rendering of a floating token value"""
+    return fv.name if isinstance(fv, Sym) else (repr(fv) if isinstance(fv, Term) else fv)
+
+
 def r1110(P, u, rep):
     fn = 'convert_pp_number'
     _need(u, fn, 'convert_pp_int')
-    rep.rule('R11.10', 'floating constants: the value is produced by strtold and reaches Token.fval through long double only; suffix f/F, l/L, none select float, long double, double; a pp-number that is neither an integer nor a floating constant of C11 6.4.4.2 is diagnosed', floor=16)
+    rep.rule('R11.10', 'floating constants: suffix f/F, l/L, none select float, long double, double; the value is converted from the spelling ONCE, directly to the constant\'s type '
+             '(strtof / strtod / strtold on the whole constant; a float or double obtained by narrowing a long double result is rounded twice), and reaches Token.fval without a narrowing conversion; '
+             'a pp-number that is neither an integer nor a floating constant of C11 6.4.4.2 is diagnosed', floor=16)
     where = _where(u, fn)
     # (a) typed data-flow check on the AST
     tokrec = u.records.get('Token') or []
@@ -910,18 +944,24 @@ def r1110(P, u, rep):
             continue
         narrow = [p for p in problems if p[0] == 'narrow']
         callee = [p for p in problems if p[0] == 'callee']
-        rep.ob('R11.10', '%s:%s:fval-passes-through-long-double-only' % (TU, fname), not narrow,
-               'the value stored into Token.fval passes through type %s (line %d): a long double constant such as 1.1L is rounded to that type first' % (narrow[0][1:] if narrow else ('', 0)), where=w)
-        rep.ob('R11.10', '%s:%s:fval-produced-by-strtold' % (TU, fname), not callee and (bool(seen) or bool(narrow)),
-               'the value stored into Token.fval is produced by %s (line %d), not by strtold: the constant is scanned at lower precision' % (callee[0][1:] if callee else ('no call', n.line)), where=w)
+        rep.ob('R11.10', '%s:%s:fval-not-narrowed-after-conversion' % (TU, fname), not narrow,
+               'the value stored into Token.fval is converted to the narrower type %s on its way (line %d): a constant of a wider type (1.1L, or 0.1 when that type is float) is rounded to that type first' % (narrow[0][1:] if narrow else ('', 0)), where=w)
+        rep.ob('R11.10', '%s:%s:fval-produced-by-strtof-strtod-strtold' % (TU, fname), not callee and (bool(seen) or bool(narrow)),
+               'the value stored into Token.fval is produced by %s (line %d), not by strtof / strtod / strtold' % (callee[0][1:] if callee else ('no call', n.line)), where=w)
     # (b) suffix table and syntax by interpretation
     tk_num = u.enums.get('TK_NUM')
-    marker = Sym('fval', 'long double')
-    models = L.make_models(on_float=lambda it, ctx, fname, text: marker)
+    made = []
+
+    def on_float(it, ctx, fname, text):
+        sy = Sym('%s("%s")' % (fname, text), {'strtof': 'float', 'strtod': 'double'}.get(fname, 'long double'))
+        made.append((sy, fname, text))
+        return sy
+    models = L.make_models(on_float=on_float)
 
     def conv(text):
         it = L.CInterp(P, u, {'models': models})
         box = {}
+        del made[:]
 
         def mk(ctx):
             t = Obj('Token', lazy=False, label='tok')
@@ -936,12 +976,14 @@ def r1110(P, u, rep):
             return [t]
         ctx, out = L.run1(it, fn, mk)
         return it, ctx, out, box['t']
-    valid = [('none', ['1.0', '1.', '.5', '1e5', '1E+5', '1.5e-3', '0x1p3', '0x1.8p+1', '0X.8P-1', '08.5', '09e1', '0.0']),
-             ('f', ['1.0f', '1.F', '.5f', '1e5F', '0x1p3f', '1e-2f']),
+    valid = [('none', ['1.0', '1.', '.5', '1e5', '1E+5', '1.5e-3', '0x1p3', '0x1.8p+1', '0X.8P-1', '08.5', '09e1', '0.0', '1.00000000000000011102230246251565404236316680908203126', '0x1.00000000000008000004p0']),
+             ('f', ['1.0f', '1.F', '.5f', '1e5F', '0x1p3f', '1e-2f', '1.00000005960464477539062500001f', '0x1.000001000000000004p0F']),
              ('l', ['1.0l', '1.L', '.5L', '1e5l', '0x1p3L', '1.1L'])]
+    TNAME = {DOUBLE: 'double', FLOAT: 'float', LDOUBLE: 'long double'}
+    OWN = {FLOAT: 'strtof', DOUBLE: 'strtod', LDOUBLE: 'strtold'}
     for sclass, samples in valid:
         ok, msg = True, ''
-        okv, msgv = True, ''
+        okv, msgv, vkey = True, '', 'converted-once-to-own-type'
         for text in samples:
             want = float_oracle(text)
             it, ctx, out, t = conv(text)
@@ -951,14 +993,30 @@ def r1110(P, u, rep):
                 continue
             got = L.type_sig(it, t.fields.get('ty', 0))
             if (got != want or t.fields.get('kind') != tk_num) and ok:
-                ok, msg = False, 'the floating constant %s gets type %r (token kind %r); C11 6.4.4.2p4 requires %s' % (text, got, t.fields.get('kind'), {DOUBLE: 'double', FLOAT: 'float', LDOUBLE: 'long double'}[want])
-            ev = [e for e in ctx.events if e[0] == 'strtofloat']
-            if not (len(ev) == 1 and ev[0][1] == 'strtold' and t.fields.get('fval') is marker) and okv:
-                body = text.rstrip('fFlL') if not text.lower().startswith('0x') else text[:-1] if text[-1] in 'fFlL' else text
-                okv, msgv = False, 'the value of %s is obtained by %s and stored as %r: not the unrounded long double result of strtold' % (
-                    text, ', '.join('%s("%s")' % e[1:3] for e in ev) or 'no conversion', t.fields.get('fval'))
+                ok, msg = False, 'the floating constant %s gets type %r (token kind %r); C11 6.4.4.2p4 requires %s' % (text, got, t.fields.get('kind'), TNAME[want])
+            if not okv or got != want:
+                continue
+            body = text[:-1] if text[-1] in 'fFlL' else text
+            sy, through, bad = fval_origin(t.fields.get('fval'))
+            src = [m for m in made if m[0] is sy]
+            shown = ', '.join('%s("%s")' % m[1:] for m in made) or 'no conversion'
+            if bad or not src:
+                okv, msgv, vkey = False, 'the value of %s is stored as %r (conversions performed: %s): %s' % (text, t.fields.get('fval'), shown, bad or 'not the result of strtof / strtod / strtold'), 'value-is-a-conversion-of-the-spelling'
+            elif src[0][2] != body:
+                okv, msgv, vkey = False, 'the value of %s is the result of %s("%s"): not a conversion of the whole constant `%s`' % (text, src[0][1], src[0][2], body), 'whole-spelling-converted'
+            elif [x for x in through if _FRANK[x] < _FRANK[TNAME[want]]]:
+                nt = [x for x in through if _FRANK[x] < _FRANK[TNAME[want]]][0]
+                okv, msgv, vkey = False, 'the value of the %s constant %s is converted to %s before it is stored: it loses the precision of its type' % (TNAME[want], text, nt), 'not-narrowed-below-own-type'
+            elif src[0][1] != OWN[want]:
+                wider = _STRTO[src[0][1]] > _STRTO[OWN[want]]
+                okv, vkey = False, 'converted-once-to-own-type'
+                msgv = 'the value of the %s constant %s is the result of %s("%s"), a conversion to %s; ' % (TNAME[want], text, src[0][1], src[0][2], {1: 'float', 2: 'double', 3: 'long double'}[_STRTO[src[0][1]]]) + \
+                    ('the narrowing to %s happens later (eval_double / code generation) and is a second rounding: a spelling that lies just above the midpoint of two adjacent %s values, closer to it than the long double '
+                     'precision resolves, is first rounded onto the midpoint and then to even -- `double d = 1.00000000000000011102230246251565404236316680908203126;` holds 0x3ff0000000000000, correctly rounded '
+                     '(gcc, strtod) 0x3ff0000000000001; `1.00000005960464477539062500001f` holds 0x3f800000 instead of 0x3f800001. The constant must be converted by %s' % (TNAME[want], TNAME[want], OWN[want])
+                     if wider else 'the constant has fewer significant digits than its type (%s required)' % OWN[want])
         rep.ob('R11.10', '%s:%s:suffix-%s-type' % (TU, fn, sclass), ok, msg, where=where)
-        rep.ob('R11.10', '%s:%s:suffix-%s-value-unrounded' % (TU, fn, sclass), okv, msgv, where=where)
+        rep.ob('R11.10', '%s:%s:suffix-%s-value/%s' % (TU, fn, sclass, vkey), okv, msgv, where=where)
     invalid = [('bad-suffix', ['1.0x', '1.0ff', '1.0fl', '1.0lf', '1.0u', '1e5ll', '1.0LL', '1.0d']),
                ('exponent-without-digits', ['1e', '1e+', '1.0e-', '0x1p', '0x1p+']),
                ('two-periods', ['1.2.3', '1..2']),
@@ -1082,7 +1140,7 @@ def lex_at_end(P, u, data):
         if out2[0] == 'ret':
             fv = t.fields.get('fval', 0)
             nums.append(('num', t.fields.get('kind'), L.type_sig(it2, t.fields.get('ty', 0)), t.fields.get('val', 0),
-                         fv.name if isinstance(fv, Sym) else fv))
+                         fval_sig(fv)))
         else:
             nums.append((out2[0],))
         desc += ' -> %s' % ('%s constant' % (TYN.get(nums[-1][2]) or (nums[-1][2] or ('?',))[0][3:].lower()) if out2[0] == 'ret' else 'invalid numeric constant')
@@ -1640,7 +1698,8 @@ def r1116(P, u, rep):
             msgs.append('the node is not ND_NUM')
         if nd.fields.get('ty', 0) is not tok.fields.get('ty', 0) and nsig != tsig:
             msgs.append('the expression has type %s, the constant has type %s' % (describe_ty(it, nd.fields.get('ty', 0)), describe_ty(lx.it, tok.fields.get('ty', 0))))
-        if isf and nd.fields.get('fval') is not marker:
+        tf, nf = tok.fields.get('fval'), nd.fields.get('fval')
+        if isf and not (nf is tf and fval_origin(tf)[0] is marker):
             msgs.append('the expression has the value %r, not the long double value of the token' % (nd.fields.get('fval'),))
         if not isf and nd.fields.get('val') != tok.fields.get('val'):
             msgs.append('the expression has the value %r, the constant %r' % (nd.fields.get('val'), tok.fields.get('val')))
@@ -1669,6 +1728,110 @@ def r1116(P, u, rep):
             msgs.append('parsing does not continue behind the literal')
         rep.ob('R11.16', key, not msgs, 'the string literal %s: %s' % (src, '; '.join(msgs)), where=where)
 
+# ============================================================================ R11.17 ===
+# C11 6.4.3: \uXXXX / \UXXXXXXXX name the character with that short identifier.  Permitted names: every value >= 0xA0 outside
+# D800..DFFF, and below 0xA0 exactly 0x24 ($), 0x40 (@), 0x60 (`).  (Names the constraint of 6.4.3p2 forbids are not sampled:
+# any treatment of them is a treatment of an invalid program.)
+UCN_BELOW_A0 = (0x24, 0x40, 0x60)
+
+
+def ucn_points(maxbits):
+    """permitted code points per UTF-8 length class: class bounds, every single payload bit, the bound of the basic range"""
+    top = min((1 << maxbits) - 1, 0x10FFFF)
+    groups = {'permitted-below-A0': list(UCN_BELOW_A0),
+              'first-permitted-A0-to-FF': [0xA0, 0xA1, 0xA9, 0xBF, 0xC0, 0xE9, 0xFE, 0xFF],
+              'two-byte': [0x100, 0x101, 0x3B1, 0x7FE, 0x7FF] + [0x100 | (1 << k) for k in range(0, 11) if k != 8] + [0x7FF & ~(1 << k) for k in range(0, 8)],
+              'three-byte': [0x800, 0x801, 0x20AC, 0x3042, 0xD7FF, 0xE000, 0xFFFD, 0xFFFE, 0xFFFF] + [0x800 | (1 << k) for k in range(0, 16) if k != 11] + [0x1000, 0x2000, 0x4000, 0x8000]}
+    if top > 0xFFFF:
+        groups['four-byte'] = [0x10000, 0x10001, 0x1F363, 0x10FFFE, 0x10FFFF] + [0x10000 | (1 << k) for k in range(0, 16)] + [1 << k for k in range(17, 21)]
+    for g in groups:
+        groups[g] = sorted(set(c for c in groups[g] if c <= top and not 0xD800 <= c <= 0xDFFF and (c >= 0xA0 or c in UCN_BELOW_A0)))
+    return groups
+
+
+def _ucn_replace(P, u, data):
+    """convert_universal_chars on the NUL-terminated buffer `data`: the bytes it leaves, or None"""
+    it = L.CInterp(P, u, {'models': L.make_models()})
+    p = L.cstring(data)
+    ctx, out = L.run1(it, 'convert_universal_chars', [p])
+    if out[0] != 'ret':
+        return None
+    try:
+        return bytes(L.cbytes(p))
+    except Exception:
+        return None
+
+
+def r1117(P, u, rep):
+    fn = 'convert_universal_chars'
+    _need(u, fn, 'tokenize_file')
+    rep.rule('R11.17', 'universal character names: every \\uXXXX and \\UXXXXXXXX that C11 6.4.3 permits (values >= 0xA0 outside the surrogates, and $ @ ` below) is replaced by the '
+             'UTF-8 form of exactly the named character, with hex digits of either case, wherever it stands in the text; string literals and character constants of every '
+             'prefix then hold the named character', floor=19)
+    where = _where(u, fn)
+    n = 0
+    for form, digits, bits in (('u4', 4, 16), ('U8', 8, 32)):
+        for g, pts in sorted(ucn_points(bits).items()):
+            ok, msg = True, ''
+            for c in pts:
+                for spell in ('%0*X', '%0*x'):
+                    name = ('\\u' if digits == 4 else '\\U') + spell % (digits, c)
+                    n += 1
+                    for pre, post in ((b'a', b'z'), (b'', b'')):
+                        got = _ucn_replace(P, u, pre + name.encode() + post)
+                        want = pre + bytes(utf8_oracle(c)) + post
+                        if got != want and ok:
+                            ok = False
+                            msg = 'the universal character name %s in the text `%s` is %s; C11 6.4.3 / 5.1.1.2: it names U+%04X%s, whose UTF-8 form is %s' % (
+                                name, (pre + name.encode() + post).decode(), 'left as `%s`: the literal readers then see the backslash as an unknown escape and keep the letter and the digits as %d separate characters' % (
+                                    got.decode('utf-8', 'replace'), digits + 1) if got == pre + name.encode() + post else ('replaced by the bytes %s' % (' '.join('%02X' % b for b in got[len(pre):len(got) - len(post)]) if got is not None else 'nothing (no result)')),
+                                c, ' (`%s`, one of the three characters below 0xA0 that 6.4.3p2 allows)' % chr(c) if c < 0xA0 else '', ' '.join('%02X' % b for b in utf8_oracle(c)))
+            rep.ob('R11.17', '%s:%s:%s/%s' % (TU, fn, form, g), ok, msg, where=where)
+    if n < 250:
+        raise AnalysisBroken('universal character name sample set collapsed')
+    # position and neighbourhood: names next to each other, next to an escaped backslash, mixed digit case, at the end of the buffer
+    ok, msg = True, ''
+    for data, want in ((b'\\u00e9\\u00E9', b'\xc3\xa9\xc3\xa9'), (b'\\u0040\\U00000024\\u0060', b'@$`'), (b'x\\uAbCdy', b'x\xea\xaf\x8dy'), (b'\\U0001f363\\u3042', b'\xf0\x9f\x8d\xa3\xe3\x81\x82'),
+                       (b'\\\\\\u00e9', b'\\\\\xc3\xa9'), (b'\\\\u00e9', b'\\\\u00e9'), (b'\\n\\u00e9\\t', b'\\n\xc3\xa9\\t'), (b'u00e9 U0001F363', b'u00e9 U0001F363')):
+        got = _ucn_replace(P, u, data)
+        if got != want and ok:
+            ok, msg = False, 'the text `%s` becomes %r; expected %r (each universal character name replaced by its character, everything else kept)' % (data.decode(), got, want)
+    rep.ob('R11.17', '%s:%s:names-in-sequence' % (TU, fn), ok, msg, where=where)
+    # the three characters below 0xA0, through the whole pipeline, in every kind of literal
+    wf = _where(u, 'tokenize_file')
+    for name, src, base, units in (('string', '"\\u0040\\u0024\\U00000060"', CHAR, [0x40, 0x24, 0x60]), ('u8-string', 'u8"a\\u0040"', CHAR, [0x61, 0x40]),
+                                   ('utf16-string', 'u"\\u0040x"', USHORT, [0x40, 0x78]), ('utf32-string', 'U"\\U00000024"', UINT_T, [0x24]), ('wide-string', 'L"\\u0060\\u00a0"', INT_T, [0x60, 0xA0])):
+        good, what = check_string(P, u, (src + '\n').encode(), base, units, via_file=True)
+        rep.ob('R11.17', '%s:tokenize_file:permitted-below-A0/%s' % (TU, name), good,
+               'the literal %s becomes %s; C11 6.4.3 / 6.4.5: an array of %s holding %s' % (src, what, TYNAME[base], fmt_units(units + [0])), where=wf)
+    for name, src, ty, val in (('char', "'\\u0024'", INT_T, 0x24), ('utf16-char', "u'\\u0040'", USHORT, 0x40), ('utf32-char', "U'\\U00000060'", UINT_T, 0x60), ('wide-char', "L'\\u0060'", INT_T, 0x60)):
+        lx = lex(P, u, (src + '\n').encode(), via_file=True)
+        ok, what = True, ''
+        if lx.failed or lx.kinds(u) != ['TK_NUM', 'TK_EOF']:
+            ok, what = False, lx.describe(u)
+        else:
+            t = lx.toks[0]
+            sig = L.type_sig(lx.it, t.fields.get('ty', 0))
+            if sig != ty or t.fields.get('val') != val:
+                ok, what = False, 'a constant of type %s with value %r' % (CTYNAME.get(sig, sig), t.fields.get('val'))
+        rep.ob('R11.17', '%s:tokenize_file:permitted-below-A0/%s' % (TU, name), ok,
+               'the character constant %s becomes %s; C11 6.4.3 / 6.4.4.4: type %s, value %d' % (src, what, CTYNAME[ty], val), where=wf)
+
+
+# ============================================================================ R11.18 ===
+def r1118(P, rep):
+    from ..report import Report, reissue
+    from . import c07
+    rep.rule('R11.18', 'a floating constant has ONE value, that of its type (C11 6.4.4.2p4, p5): where the constant folder evaluates the literal (static initialisers, enum values, array sizes, '
+             'case labels) it rounds Token.fval / Node.fval to the literal\'s type exactly once, as the generated code does, and returns it in a type that holds a long double '
+             '(same obligations as C07 R07.13, literal arm and return type)', floor=4)
+    sub = Report('C07')
+    c07.r0713(c07.Folder(P), P, sub)
+    n = reissue(rep, 'R11.18', sub, 'a floating constant would have another value in a constant expression than at run time: ',
+                keep=lambda o: o['key'].startswith('R07.13:') and (':eval_double:ND_NUM' in o['key'] or ':eval_double:return-type' in o['key']))
+    if n == 0:
+        rep.undecided('R11.18', 'parse.c:eval_double:ND_NUM', 'C07 R07.13 issues no obligation for the literal arm of eval_double any more')
+
 
 def run(P, rep, tier):
     u = P.unit(TU)
@@ -1686,7 +1849,11 @@ def run(P, rep, tier):
                        'of another element width is diagnosed; a literal expression has the token\'s type and value. '
                        'Names of the literal types (R11.15): every typedef of wchar_t / char16_t / char32_t (and the atomic_ variants) in the bundled headers, read through '
                        'clang without its predefined macros, is compared with the type of the tokens of L / u / U literals. '
-                       'Not decided: strtoul/strtold themselves, code points other than the sampled ones.')
+                       'Universal character names (R11.17): convert_universal_chars is run on every permitted name at the bounds and single payload bits of each UTF-8 length '
+                       'class, in both forms and digit cases, including the three names below 0xA0 that C11 6.4.3p2 permits ($ @ `), and those three through the whole pipeline in every literal kind. '
+                       'Floating constants (R11.10, R11.18): the value stored into the token must be the result of the conversion function of the constant\'s own type (strtof / strtod / strtold) '
+                       'on the whole spelling, never narrowed on its way; the folder\'s literal arm rounds to the literal\'s type (C07 R07.13 re-issued). '
+                       'Not decided: strtoul/strtof/strtod/strtold themselves, code points other than the sampled ones, universal character names that 6.4.3p2 forbids.')
     rep.assumptions += ['libc functions behave as ISO C 7.4/7.22/7.24 specify (python models)', 'x86-64: char is signed, LP64',
                         'UTF-8/UTF-16 oracles are python\'s codecs (RFC 3629 / RFC 2781)',
                         'R11.14: declared element types are the type.c objects ty_char/ty_uchar/ty_short/ty_ushort/ty_int/ty_uint; a scanner limit above 4200 characters is not seen']
@@ -1694,7 +1861,8 @@ def run(P, rep, tier):
     for rule, f in (('R11.1', lambda: r111(P, u, rep)), ('R11.3', lambda: r113(P, u, rep)), ('R11.4', lambda: r114(P, rep)),
                     ('R11.5', lambda: r115(P, u, rep)), ('R11.6', lambda: r116(P, u, rep)), ('R11.7', lambda: r117(P, u, rep)),
                     ('R11.8', lambda: r118(P, u, rep)), ('R11.9', lambda: r119(P, u, rep)), ('R11.10', lambda: r1110(P, u, rep)), ('R11.11', lambda: r1111(P, rep)), ('R11.12', lambda: r1112(P, u, rep)),
-                    ('R11.13', lambda: r1113(P, u, rep)), ('R11.14', lambda: r1114(P, u, rep)), ('R11.15', lambda: r1115(P, u, rep)), ('R11.16', lambda: r1116(P, u, rep))):
+                    ('R11.13', lambda: r1113(P, u, rep)), ('R11.14', lambda: r1114(P, u, rep)), ('R11.15', lambda: r1115(P, u, rep)), ('R11.16', lambda: r1116(P, u, rep)),
+                    ('R11.17', lambda: r1117(P, u, rep)), ('R11.18', lambda: r1118(P, rep))):
         try:
             f()
         except AnalysisBroken as e:
